@@ -153,6 +153,19 @@ func evalSpecFiltered(c *Ctx, p *Prog, s *specFile, rConst, rCall, rTerm string,
 			ob.At(p.InstrPos(calls[0])).Hold("%v", k.Args)
 		}
 	}
+	// helpers whose result is a pure function of their parameters: their applications are
+	// expanded on both sides of the comparison (a helper inlined by hand compares equal)
+	sums := map[string]map[int]string{}
+	for _, k := range s.Terms {
+		if strings.Contains(k.Term, "<") || strings.Contains(k.Func, ").") {
+			continue
+		}
+		name := k.Func[strings.LastIndex(k.Func, ":")+1:]
+		if sums[name] == nil {
+			sums[name] = map[int]string{}
+		}
+		sums[name][k.Result] = k.Term
+	}
 	for _, k := range s.Terms {
 		if keep != nil && !keep("term", fmt.Sprintf("%s#%d", k.Func, k.Result)) {
 			continue
@@ -160,6 +173,17 @@ func evalSpecFiltered(c *Ctx, p *Prog, s *specFile, rConst, rCall, rTerm string,
 		ob := c.Obl(rTerm, fmt.Sprintf("term:%s#%d", k.Func, k.Result), "the value built here has the layout the wire format prescribes ("+k.Why+"); reconstructed from the def-use chains as an expression tree and compared with the spec term")
 		fn := p.Func(k.Func)
 		if fn == nil {
+			name := k.Func[strings.LastIndex(k.Func, ":")+1:]
+			var users []string
+			for _, o := range s.Terms {
+				if o.Func != k.Func && strings.Contains(o.Term, name+"(") {
+					users = append(users, o.Func)
+				}
+			}
+			if _, isSum := sums[name][k.Result]; isSum && len(users) > 0 {
+				ob.HoldNT("helper %s does not exist in this tree; the values it contributed to (%s) are compared with its prescribed result %s expanded in place", k.Func, strings.Join(users, ", "), k.Term)
+				continue
+			}
 			ob.Undecide("function %s not found", k.Func)
 			continue
 		}
@@ -174,7 +198,7 @@ func evalSpecFiltered(c *Ctx, p *Prog, s *specFile, rConst, rCall, rTerm string,
 		switch {
 		case len(t.errs) > 0:
 			ob.At(p.InstrPos(succ[0])).Undecide("cannot reconstruct the layout: %s", strings.Join(t.errs, "; "))
-		case !termEq(got, k.Term):
+		case !termEq(expandSummaries(got, sums, 0), expandSummaries(k.Term, sums, 0)):
 			ob.At(p.InstrPos(succ[0])).Violate("layout differs from the wire format:\n      got:  %s\n      spec: %s", got, k.Term)
 		default:
 			ob.At(p.InstrPos(succ[0])).HoldNT("%s", got)
